@@ -37,6 +37,20 @@ theorem C19_load_evaluates :
       reach_matrix "Load" (by decide) "LogDir" (by decide +kernel)]
   decide
 
+/-- **no guard is redundant.** The model abstracts the value of a field away, so a guard weakened for some
+    value shapes only (seeded mutant C19-3: `if quoted || isBacktick && eval` in parseParamValue) arrives in the
+    table as a site / call edge without its `noEval` requirement. For EVERY guarded effect site and EVERY guarded
+    call edge of the canonical table, dropping that single requirement lets a non-evaluating entry point reach
+    an effect — such a change can never leave `C19_full` provable (the tie breaks, and re-adopting the table
+    refutes the theorem). The canonical table itself does not leak. -/
+theorem C19_guards_needed :
+    leaks canon = false ∧
+    (∀ i ∈ List.range canon.sites.length,
+      (isEffectRow (canon.sites.getD i []) && col (canon.sites.getD i []) 4 == "F") = true → leaks (unguardSite canon i) = true) ∧
+    (∀ i ∈ List.range canon.edges.length,
+      (col (canon.edges.getD i []) 2 == "F") = true → leaks (unguardEdge canon i) = true) :=
+  ⟨canon_does_not_leak, every_site_guard_needed, every_edge_guard_needed⟩
+
 /-- the option sets of the entry points, as read from loader.go -/
 example : optsOf canon "LoadYAML" = some ⟨true, false⟩ ∧ optsOf canon "LoadMetadata" = some ⟨true, true⟩ ∧
     optsOf canon "LoadWithoutEval" = some ⟨true, false⟩ ∧ optsOf canon "Load" = some ⟨false, false⟩ := by decide +kernel
@@ -45,3 +59,4 @@ end BdModel.P19
 
 #print axioms BdModel.P19.C19_full
 #print axioms BdModel.P19.C19_load_evaluates
+#print axioms BdModel.P19.C19_guards_needed
